@@ -10,7 +10,7 @@ or error class) must be equal.
 
 Case (plain JSON)
     {"t0": epoch seconds, "loaders": {"A": "dict"|"caching", "B": ...},
-     "templates": {name: source}      loader contents of A and B (never modified)
+     "templates": {name: source}      initial loader contents of A and B (edited by the "ed" operation)
      "sources": [source, ...]         pool for from_string / parse()
      "data": [{...}, ...]             pool of render arguments; nested dicts become mapping drops,
                                       lists become sequence drops when the set has "_lists": true
@@ -36,6 +36,11 @@ Operations
                                  send(None); every drop access is a suspension point; `sched`
                                  says which coroutine runs next
     ["mr", si, di]               liquid2.render(sources[si], **data[di])
+    ["ed", env, name, n]         the (non-caching) loader of env gets new contents for `name`; fresh objects
+                                 are built from the CURRENT contents
+    Before and after every history a fixed set of probes and the history's own templates are rendered on
+    brand-new objects at the start clock: class- or module-level state left behind by the history shows as a
+    difference ("process-wide-state").
 
 Generator flags (`disabled`)
     "date-now"          no 'now' / 'today' string input to the date filter (process-wide memo)
@@ -225,7 +230,13 @@ HAND = [
     # 15, 16 equal-but-different date inputs (1 == 1.0): a memo keyed by value conflates them
     "{{ 1 | date: '%Y' }}",
     "{{ 1.0 | date: '%Y' }}",
+    # 17 a partial rendered from inside a macro body
+    "{% macro mm a %}m{{ a }}{% render 'ren_part', p: a %}{% endmacro %}[[mac:{% call mm d.a %}]]{{ d.b }}",
+    # 18, 19 partials that define blocks / extend a base, rendered in an isolated scope
+    "{{ d.a }}{% render 'base' %}|{% render 'mid' %}{{ d.b }}",
+    "{% for i in (1..2) %}{% render 'mid' %}{% endfor %}{% include 'base' %}",
 ]
+PROCESS_PROBES = (18, 19, 4, 5, 9, 17)  # (the ones that only read first, the ones that might leave something behind last) rendered on brand-new objects before and after every history
 HAND_DATE_NOW = {8}
 HAND_DATE_CONFLATION = {15, 16}
 
@@ -419,7 +430,9 @@ def apply_reg(env: Environment, what: str, undo: list[Any]) -> None:
 class World:
     """Environments A, B, D with their loaders and the Template objects made so far."""
 
-    def __init__(self, case: dict[str, Any], regs: list[str], *, shared: bool, undo: list[Any]) -> None:
+    def __init__(self, case: dict[str, Any], regs: list[str], *, shared: bool, undo: list[Any],
+                 edits: dict[str, dict[str, str]] | None = None) -> None:
+        self.edits = edits if edits is not None else {}  # env -> {name: current source} (non-caching loaders)
         self.shared = shared
         self.case = case
         self.sources: list[str] = case["sources"]
@@ -442,6 +455,7 @@ class World:
         else:
             kind = self.case["loaders"].get(name, "dict")
             tm = dict(self.case["templates"])
+            tm.update(self.edits.get(name, {}))  # the loader's CURRENT contents
             env = Environment(loader=CachingDictLoader(tm) if kind == "caching" else DictLoader(tm))
             if name == "A":
                 for what in self.regs:
@@ -583,7 +597,9 @@ def source_strategy(draw: Any, disabled: frozenset[str], with_partials: bool) ->
     return src, {k: to_source(v, 0) for k, v in prog["templates"].items()}
 
 
-def _op_strategy(trefs: list[list[Any]], nsrc: int, ndata: int, disabled: frozenset[str]) -> Any:
+def _op_strategy(trefs: list[list[Any]], nsrc: int, ndata: int, disabled: frozenset[str],
+                 names: list[str] | None = None) -> Any:
+    names = names or sorted(BASES)
     tref = st.one_of(st.just(trefs[0]), st.sampled_from(trefs))
     di = st.integers(0, ndata - 1)
     return st.one_of(
@@ -599,6 +615,7 @@ def _op_strategy(trefs: list[list[Any]], nsrc: int, ndata: int, disabled: frozen
         st.tuples(st.just("reg"), st.sampled_from(["filter-new", "filter-override", "tag-new", "json-default"])),
         st.tuples(st.just("cc"), tref, di, di, st.lists(st.integers(0, 1), max_size=16)),
         st.tuples(st.just("mr"), st.integers(0, nsrc - 1), di),
+        st.tuples(st.just("ed"), st.sampled_from(["A", "B"]), st.sampled_from(names), st.integers(0, 3)),
     )
 
 
@@ -639,7 +656,7 @@ def history_case(draw: Any, tier: str, disabled: frozenset[str]) -> dict[str, An
     order = draw(st.permutations(list(range(len(cand)))))
     trefs = [cand[j] for j in order[:k]]
     hi = 12 if tier == "quick" else 30
-    ops = draw(st.lists(_op_strategy(trefs, nsrc, len(data), disabled), min_size=3, max_size=hi))
+    ops = draw(st.lists(_op_strategy(trefs, nsrc, len(data), disabled, sorted(templates)), min_size=3, max_size=hi))
     return {
         "t0": draw(st.sampled_from([1_000_000_000, 1_152_098_955, 1_700_000_000 - 1, 951_782_399, 86399])),
         "loaders": {"A": draw(st.sampled_from(["dict", "caching"])), "B": draw(st.sampled_from(["dict", "caching"]))},
@@ -795,12 +812,13 @@ class C09(Prop):
         hist: list[list[Any]] = case["h"]
         datas: list[dict[str, Any]] = case["data"]
         regs: list[str] = []
-        shared = World(case, regs, shared=True, undo=undo)
+        edits: dict[str, dict[str, str]] = {}
+        shared = World(case, regs, shared=True, undo=undo, edits=edits)
         reported: set[str] = set()
         step = 0
 
         def fresh() -> World:
-            return World(case, regs, shared=False, undo=[])
+            return World(case, regs, shared=False, undo=[], edits=edits)
 
         def fail(oracle: str, bucket: str, detail: str) -> None:
             if bucket in reported:
@@ -875,6 +893,27 @@ class C09(Prop):
                 seen.add(clock.t)
             env_failed[tref[0]] = o[0] == "err"
 
+        # ---- process-wide state: what brand-new objects render BEFORE the history ran must be what brand-new
+        # objects render after it (same clock, original loader contents).  State that lives in a class or a
+        # module poisons "fresh" objects too, so comparing with objects built afterwards cannot see it.
+        t_start = clock.t
+        probe_trefs: list[list[Any]] = []
+        for op in hist:
+            if op[0] in ("r", "ra", "rf", "cc", "an", "new") and op[1] not in probe_trefs:
+                probe_trefs.append(op[1])
+        probe_trefs = probe_trefs[:3]
+
+        def probe_all() -> list[Outcome]:
+            clock.set(t_start)
+            w = World(case, [], shared=False, undo=[])
+            outs = [render_on(w, ["A" if tr[0] == "D" else tr[0], tr[1], tr[2]], datas[0], Ctl(), "s") for tr in probe_trefs]
+            outs += [attempt(lambda: Environment(loader=DictLoader(dict(BASES))).from_string(HAND[i]).render(d=D_DEFAULT))  # noqa: B023
+                     for i in PROCESS_PROBES]
+            return outs
+
+        before = probe_all()
+        clock.set(t_start)
+
         for step, op in enumerate(hist):
             self._steps += 1
             code = op[0]
@@ -905,6 +944,23 @@ class C09(Prop):
                         fail("cross-env", f"cross-env:{pwhat}",
                              f"after configuring env A ({what}), a NEW Environment renders {psrc!r} as "
                              f"{show(got)}, expected {show(expect)}")
+                continue
+
+            if code == "ed":
+                # the loader's contents change: later renders must see the current contents (the caching
+                # loader over a dict has no freshness information and may keep what it loaded - C14's subject -
+                # so only non-caching loaders are edited)
+                env_name, name, n = op[1], op[2], op[3]
+                if case["loaders"].get(env_name, "dict") != "dict" or name not in case["templates"]:
+                    res.labels.append("ed:skipped")
+                    continue
+                new_src = case["templates"][name] + f"<ed{n}>"
+                edits.setdefault(env_name, {})[name] = new_src
+                shared.env(env_name).loader.templates[name] = new_src  # type: ignore[attr-defined]
+                for key in [k for k in shared.objs if k[0] == env_name and k[1] == "g" and k[2] == name]:
+                    del shared.objs[key]  # the caller asks get_template again for the edited page itself
+                    gen_of[key] = gen_of.get(key, 0) + 1
+                res.labels.append("ed:applied")
                 continue
 
             if code == "mr":
@@ -1031,6 +1087,19 @@ class C09(Prop):
 
             raise ValueError(f"unknown operation {op!r}")
 
+        # ---- after the history: brand-new objects at the start clock must behave as they did before it
+        t_end = clock.t
+        after = probe_all()
+        clock.set(t_end)
+        res.evaluations += 2 * len(before)
+        for i, (b, a) in enumerate(zip(before, after)):
+            if b != a and "skip" not in (b[0], a[0]):
+                step = len(hist) - 1
+                what = (f"template {probe_trefs[i]}" if i < len(probe_trefs)
+                        else f"fixed probe {HAND[PROCESS_PROBES[i - len(probe_trefs)]]!r}")
+                fail("process-state", "process-wide-state",
+                     f"brand-new environment, loader and template ({what}) rendered {show(b)} before this "
+                     f"history and {show(a)} after it, at the same clock")
         res.nontrivial = nontrivial and len(hist) >= 3
 
     def sample(self, case: Any) -> Any:
@@ -1058,6 +1127,8 @@ def op_str(op: list[Any]) -> str:
         return f"cc({t(op[1])},d{op[2]},d{op[3]},{''.join(str(x) for x in op[4])})"
     if code == "mr":
         return f"mr(s{op[1]},d{op[2]})"
+    if code == "ed":
+        return f"ed({op[1]}:{op[2]}#{op[3]})"
     return str(op)
 
 
